@@ -239,7 +239,13 @@ def decode_sent_sd(rec):
     out = []
     for f in wire.split_datagram(data):
         if f["service"] == wire.SD_SERVICE and f["method"] == wire.SD_METHOD:
-            out.append((t, dest, f, wire.decode_sd(f["payload"])))
+            try:
+                out.append((t, dest, f, wire.decode_sd(f["payload"])))
+            except wire.WireError as we:
+                # what the library transmitted is not a well-formed SD message: whatever the property, the entries it was
+                # meant to carry did not reach their destination
+                from .engine import Violation
+                raise Violation("*.undecodable-transmission", f"the SD message sent to {dest} at t={t:.6f} is malformed for the independent decoder ({we}): {bytes(f['payload'])[:96].hex()}")
     return out
 
 
